@@ -107,6 +107,19 @@ class C13(C12):
             out.append((asmgen.gen_text(rnd, undef, chunks=2), rnd.random() < 0.5, undef, False))
         return out
 
+    def cases_mt(self, tier, tag):
+        """the other targets, each text also cut into two chunks"""
+        rnd = C.rng(tag + "-chunks")
+        out = []
+        for c in super().cases_mt(tier, tag):
+            items = c[1]
+            out.append(tuple(c) + ((rnd.randint(1, len(items) - 1) if len(items) > 1 and rnd.random() < 0.8 else None),))
+        return out
+
+    def run_mt(self, c):
+        from harness import asmmt
+        return asmmt.run(c[0], c[1], c[2], c[3], unreachable=c[4], cut=c[5])
+
     def correspondence(self, tier, ctx):
         r = super().correspondence(tier, ctx)
         # Asm/TempPrefix.v against every ABI: the prefix handed out, and which labels the assembler suffixes
@@ -189,6 +202,25 @@ class C13(C12):
                             for sy in e.symbols:
                                 if any(sy.name == d or sy.name.startswith(d + "_sfx") for d in tmpdefs) and not sy.name.endswith(f"_sfx{k}"):
                                     bads.append(dict(what=f"copy {k} refers to {sy.name}: a label of another copy", input={"text": text}, finding=None))
+        # (2') chunks vs concatenation on the other targets
+        from harness import asmmt
+        for c, (line, out, res, msyms) in (getattr(self, "_mruns", None) or []):
+            target, items, pie, undef, unreach, cut = c
+            if not cut:
+                continue
+            later = {it["name"] for it in items[cut:] if it["kind"] == "label"}
+            if any(it.get("sym") in later for it in items[:cut]):
+                continue
+            # the known restart in .text: only texts whose first chunk ends in .text are compared
+            cur = ".text"
+            for it in items[:cut]:
+                if it["kind"] == "sect":
+                    cur = it["name"]
+            if cur != ".text":
+                continue
+            _, whole, _, _ = asmmt.run(target, items, pie, undef, unreachable=unreach)
+            if whole != out and not (whole.startswith("err") and out.startswith("err")):
+                bads.append(dict(what=f"{target}: chunked: {out[:300]} || whole: {whole[:300]}", input={"target": target, "text": [it["line"] for it in items], "cut": cut, "pie": pie, "allow_undef": undef}, finding=None))
         # the suffix source of a whole rewrite: functions added with register_insert_function and ordinary insertions of the same text
         from harness import funcins
         rnd2 = C.rng("c13-funcins" + ("-boost" if boosted else ""))
